@@ -5,6 +5,7 @@ Decides C05 (nothing before success, everything after; error mapping; exactly
 once) and C06 (requests are well formed: independent server-side decoder).
 """
 import ipaddress
+import re
 import struct
 
 from twisted.internet import defer
@@ -235,6 +236,13 @@ class Blackhole(Peer):
         pass
 
 
+def _tls_name_ok(host):
+    """a name the TLS layer accepts for SNI / certificate checks (it refuses others by itself, before any SOCKS byte)"""
+    labels = host[:-1].split('.') if host.endswith('.') else host.split('.')
+    return len(host) <= 253 and len(labels) >= 2 and all(
+        1 <= len(x) <= 63 and re.match(r'^[a-z0-9]([a-z0-9-]*[a-z0-9])?$', x) for x in labels)
+
+
 class SocksRun(object):
     def __init__(self, sim):
         self.sim = sim
@@ -314,7 +322,8 @@ class SocksRun(object):
                     sim.probe('target-nonascii')
                     self.unencodable = True
             else:
-                self.host = ch.pick(['a.b', 'UPPER.example', 'under_score.example', 'x' * 63 + '.y', 'example.onion'], 'odd')
+                self.host = ch.pick(['a.b', 'UPPER.example', 'under_score.example', 'x' * 63 + '.y', 'example.onion',
+                                     'www.example.com.', 'fqdn.example.'], 'odd')
             self.expect_addr = ('name', self.host)
         if kind == 'RESOLVE_PTR' and tk not in ('ipv4', 'ipv6'):
             raise HarnessError('ptr target must be an address')
@@ -589,6 +598,11 @@ class SocksRun(object):
                 from txtorcon.torcontrolprotocol import TorControlProtocol
                 sim.probe('api-tor-stream-via')
                 d = Tor(sim.reactor, TorControlProtocol()).stream_via(self.host, self.port, socks_endpoint=ep).connect(self.factory)
+            elif self.req_type == 'CONNECT' and self.prop == 'C06' and self.target_kind == 'host' and not self.unencodable and \
+                    _tls_name_ok(self.host) and ch.chance(1, 3, 'tls'):
+                # the application asked for TLS on top: the request names the target exactly as given all the same
+                sim.probe('api-socks-endpoint-with-tls')
+                d = tsocks.TorSocksEndpoint(ep, self.host, self.port, tls=True).connect(self.factory)
             elif self.req_type == 'CONNECT':
                 d = tsocks.TorSocksEndpoint(ep, self.host, self.port).connect(self.factory)
             elif self.req_type == 'RESOLVE':
